@@ -582,6 +582,85 @@ fn register_layouts(rep: &Report, wd: &std::path::Path) {
     rep.outcomes_bulk(&outcomes);
 }
 
+/// Lookups that fall through several search paths: the item may live in a separate resource file or in a
+/// register, in the local directory (./geodesy/resources) or in the user's data directory
+/// ($XDG_DATA_HOME/geodesy/resources); registers that exist but lack the item must not stop the search.
+/// Complete product: local file {no, yes} x local register {none, without the item, with it} x user file x
+/// user register x position of the item in its register.
+fn search_paths(rep: &Report, wd: &std::path::Path) {
+    let local = wd.join("geodesy").join("resources");
+    let user = wd.join("xdg").join("geodesy").join("resources");
+    std::fs::create_dir_all(&local).unwrap();
+    std::fs::create_dir_all(&user).unwrap();
+    // bodies tell the four locations apart
+    let body = |k: usize| ["addone", "addone | addone", "addone | addone | addone", "addone | addone | addone | addone"][k];
+    let mut outcomes = HashSet::new();
+    for cfg in 0..(2 * 3 * 2 * 3 * 2) {
+        let d = decode(cfg, &[2, 3, 2, 3, 2]);
+        let (lf, lr, uf, ur, item_last) = (d[0] == 1, d[1], d[2] == 1, d[3], d[4] == 1);
+        let register = |has: bool, k: usize| -> String {
+            let other = "```geodesy:other\naddone inv\n```\n".to_string();
+            let item = format!("```geodesy:item\n{}\n```\n", body(k));
+            match (has, item_last) {
+                (false, _) => format!("# register\n\n{other}"),
+                (true, true) => format!("# register\n\n{other}\n{item}"),
+                (true, false) => format!("# register\n\n{item}\n{other}"),
+            }
+        };
+        for (dir, file, reg, kf, kr) in [(&local, lf, lr, 0usize, 1usize), (&user, uf, ur, 2, 3)] {
+            let f = dir.join("sp_item.resource");
+            let r = dir.join("sp.md");
+            let _ = std::fs::remove_file(&f);
+            let _ = std::fs::remove_file(&r);
+            if file {
+                std::fs::write(&f, format!("{}\n", body(kf))).unwrap();
+            }
+            if reg > 0 {
+                std::fs::write(&r, register(reg == 2, kr)).unwrap();
+            }
+        }
+        // acceptable answers: any location holding the item, except a register whose own directory also
+        // holds the separate file (the file is looked for first); precedence between directories is not judged
+        let mut acceptable: Vec<f64> = Vec::new();
+        if lf { acceptable.push(1.); }
+        if lr == 2 && !lf { acceptable.push(2.); }
+        if uf { acceptable.push(3.); }
+        if ur == 2 && !uf { acceptable.push(4.); }
+        rep.eval(1);
+        let ctx_result = catch(|| {
+            let mut ctx = Plain::default();
+            ctx.op("sp:item").ok().map(|h| {
+                let mut data = [Coor4D([0.; 4])];
+                let n = ctx.apply(h, Fwd, &mut data).unwrap_or(0);
+                (n, data[0][0])
+            })
+        });
+        let reg_state = ["none", "without the item", "with the item"];
+        let describe = || json!({"kind": "search paths", "local_resource_file": lf, "local_register": reg_state[lr], "user_resource_file": uf,
+                                 "user_register": reg_state[ur], "item_is_last_in_register": item_last, "acceptable_adds": acceptable});
+        let where_ = format!("{}{}", if lf || lr == 2 { "local" } else { "" }, if uf || ur == 2 { "+user" } else { "" });
+        match ctx_result {
+            Err(p) => rep.violation(&format!("search paths: panic {}", panic_class(&p)), describe()),
+            Ok(None) if acceptable.is_empty() => {}
+            Ok(Some((1, x))) if acceptable.contains(&x) => {
+                outcomes.insert(hash_of(&(cfg, bits(x))));
+            }
+            Ok(got) => {
+                let mut dd = describe();
+                dd["observed"] = json!(format!("{got:?}"));
+                rep.violation(&format!("search paths: a file based macro is not found where it lives (or found where it does not) / item in [{where_}], local register {}", ["absent", "present without the item", "present with the item"][lr]), dd);
+            }
+        }
+    }
+    for dir in [&local, &user] {
+        let _ = std::fs::remove_file(dir.join("sp_item.resource"));
+        let _ = std::fs::remove_file(dir.join("sp.md"));
+    }
+    rep.set("search_path_configurations", json!(2 * 3 * 2 * 3 * 2));
+    rep.nontrivial_bulk(&outcomes);
+    rep.outcomes_bulk(&outcomes);
+}
+
 // ----- (C) schedules ----------------------------------------------------------------------------------
 
 fn sched_yield(_tag: &'static str) {
@@ -761,6 +840,7 @@ pub fn run(tier: Tier) -> Report {
     }
     grid_histories(&rep, tier.pick(5, 7), &wd);
     register_layouts(&rep, &wd);
+    search_paths(&rep, &wd);
     schedules(&rep, &wd, tier);
     leave_private_workdir(&wd);
     rep
